@@ -114,7 +114,12 @@ impl Parser<'_, '_> {
                 Token(_) | IoNumber | IoLocation => {
                     values.push(next.word);
                 }
-                Operator(Semicolon) | Operator(Newline) | EndOfInput => {
+                Operator(Newline) => {
+                    // The newline starts the contents of pending here-documents.
+                    self.here_doc_contents().await?;
+                    return Ok((Some(values), opening_location));
+                }
+                Operator(Semicolon) | EndOfInput => {
                     return Ok((Some(values), opening_location));
                 }
                 Operator(_) => {
